@@ -17,15 +17,16 @@ NAT_MAX = 4000
 OBS_LIMIT = 8000
 
 # builder codes (Model/Gen.v builder_of_code)
-CLIQUE, CYCLE, DIAMOND, BARE, PATH2, STAR, NONE, PATH2L = 0, 1, 2, 3, 4, 5, 6, 7
-BUILDER_NAMES = ["clique", "cycle", "diamond", "bare-edge", "path2", "star", "no-edge", "path2-list-edges"]
+CLIQUE, CYCLE, DIAMOND, BARE, PATH2, STAR, NONE, PATH2L, CLIQUENL = 0, 1, 2, 3, 4, 5, 6, 7, 8
+BUILDER_NAMES = ["clique", "cycle", "diamond", "bare-edge", "path2", "star", "no-edge", "path2-list-edges",
+                 "clique-dropping-self-loops"]
 
 
 def n_edges(code, s):
     """number of rows a builder yields on s vertices (None = the builder rejects that size);
     'bare' for the bare edge"""
-    if code == CLIQUE:
-        return s * (s - 1) // 2
+    if code in (CLIQUE, CLIQUENL):
+        return s * (s - 1) // 2          # CLIQUENL: nominal (fewer when the group repeats a vertex)
     if code == CYCLE:
         return s if s >= 1 else None
     if code == DIAMOND:
@@ -59,6 +60,8 @@ def py_builder(code):
         return lambda vs: []
     if code == PATH2L:
         return lambda vs: ([vs[0], vs[1]], [vs[1], vs[2]])
+    if code == CLIQUENL:
+        return lambda vs: [(a, b) for i, a in enumerate(vs) for b in vs[i + 1:] if a != b]
     raise ValueError(code)
 
 
@@ -578,8 +581,8 @@ def config_total(case):
                 return False
             s = sum(sizes[i] for i in idxs)
             ne = n_edges(codes[j], s)
-            if ne is None:
-                return False
+            if ne is None or codes[j] == CLIQUENL:
+                return False              # the naming callback has a fixed length: no varying edge count here
             if ne == "bare":
                 if len(names[j]) != 1:
                     return False
@@ -728,6 +731,8 @@ def pick_code(rng, tag, s):
             opts += [PATH2L]
     if s >= 1:
         opts += [CLIQUE, CYCLE]
+    if tag != MOTIFS and s >= 2:
+        opts += [CLIQUENL, CLIQUENL]
     return rng.choice(opts)
 
 
